@@ -10,7 +10,7 @@ import itertools
 from harness.common import *
 from harness.tracer import P, Q, equal, iszero
 
-VARS = ['a', 'b', 'c', 'a1', 'a12', 'b2']
+VARS = ['a', 'b', 'c', 'a1', 'a12', 'b2', 'ab']     # 'ab': a name that is the concatenation of two others
 VID = {v: i for i, v in enumerate(VARS)}
 
 
@@ -125,8 +125,18 @@ def run_real(prog):
                     fails.append(('zero-denominator', render(st[-1]), tok))
                 elif not equal(dv, sem[-1]):
                     fails.append(('denotation', render(st[-1]), tok))
-                if hasattr(st[-1], 'tosympy') and len(render(st[-1])) < 120 and dv != 'pole':
-                    pass
+        # conversion to sympy preserves the function: the final value against sympy arithmetic on the stored terms
+        if st and hasattr(st[-1], 'tosympy') and len(render(st[-1])) < 160:
+            import sympy
+            def sym(args):
+                return sympy.Add(*[sympy.Mul(m[0], *[sympy.Symbol(v) for v in m[1:]]) for m in args])
+            v = st[-1]
+            if isinstance(v, Polynomial):
+                if sympy.expand(v.tosympy() - sym(v.args)) != 0:
+                    fails.append(('tosympy', render(v), str(v.tosympy())))
+            elif isinstance(v, RationalPolynomial) and sym(v.denom.args) != 0:
+                if sympy.expand(sympy.numer(sympy.together(v.tosympy() - sym(v.numer.args) / sym(v.denom.args)))) != 0:
+                    fails.append(('tosympy', render(v), str(v.tosympy())))
     except Exception as e:
         return 'raise:' + type(e).__name__, None, fails
     return render(st[-1]) if st else 'empty', sem[-1] if sem else None, fails
@@ -270,6 +280,9 @@ def run(ctx):
             ctx.violation(f[0], {'program': ' '.join(prog)}, 'exact rational-function semantics', list(f[1:]), key='poly:' + f[0] + ':' + classify(prog, f))
         lines.append('kpoly ' + ' '.join(prog))
         plan.append((' '.join(prog), out))
+        # the same program through the methods as *translated from the source* (validates the translator and its prelude)
+        lines.append('srckpoly ' + ' '.join(prog))
+        plan.append(('translated: ' + ' '.join(prog), out))
     out = ctx.drive(lines)
     if out is not None:
         nb = 0
@@ -277,7 +290,7 @@ def run(ctx):
             if exp != got:
                 nb += 1
                 if nb <= 5:
-                    ctx.mismatch('kpoly', {'program': prog}, got[:300], exp[:300])
+                    ctx.mismatch('translated-source' if prog.startswith('translated: ') else 'kpoly', {'program': prog}, got[:300], exp[:300])
         ctx.count('driver-mismatches', nb)
     ctx.assumptions = ['coefficients are integers; python floats in coefficients are outside the model',
                        'programs are well typed (no mixing of Polynomial and RationalPolynomial operands, which python promotes implicitly)']
